@@ -109,6 +109,11 @@ func VerifHarness_C17_Tick() {
 			end := base.Add(-dur).Add(-time.Duration(age))
 			sg := meta.ShardGroupInfo{ID: next, StartTime: end.Add(-time.Hour), EndTime: end,
 				Shards: []meta.ShardInfo{{ID: next, Owners: []meta.ShardOwner{{NodeID: 1}}}}}
+			// a truncated group still holds points up to its end time: truncation only stops new
+			// writes at or after TruncatedAt, so expiry is governed by EndTime all the same
+			if vBool("truncated") {
+				sg.TruncatedAt = end.Add(-time.Duration(vRange("truncatedBeforeEnd", 1, int64(time.Hour))))
+			}
 			pre := vBool("alreadyDeleted")
 			if pre {
 				sg.DeletedAt = base.Add(-time.Minute)
